@@ -375,7 +375,9 @@ def _check_member(tag, nodes, edges, dag, expect_nodes=True):
     if set(dag.nodes()) != set(nodes) and (expect_nodes or not _only_isolated_missing(nodes, edges, dag.nodes())):
         return {"key": f"{keyp}:nodes", "what": f"{tag}: truth {edges}: DAG nodes {sorted(dag.nodes())} != {sorted(nodes)}"}
     if not O.is_acyclic(nodes, E) or O.skeleton(E) != O.skeleton(edges) or len(E) != len(edges) or O.vstructures(E) != O.vstructures(edges):
-        return {"key": f"{keyp}:not-in-class", "what": f"{tag}: truth {edges}: returned DAG {sorted(E)} is not Markov equivalent (acyclic={O.is_acyclic(nodes, E)})"}
+        D, U = cpdag(nodes, edges)
+        sfx = ":mixed-triangle" if mixed_triangle(D, [tuple(u) for u in U]) else ""  # input class of the PDAG.to_dag adjacency test
+        return {"key": f"{keyp}:not-in-class{sfx}", "what": f"{tag}: truth {edges}: returned DAG {sorted(E)} is not Markov equivalent (acyclic={O.is_acyclic(nodes, E)})"}
     return None
 
 
@@ -564,7 +566,8 @@ def check_to_dag_cpdag(case):
     rng.shuffle(Dl)
     Ul = [tuple(sorted(e)) if rng.random() < 0.5 else tuple(sorted(e, reverse=True)) for e in sorted(U, key=sorted)]
     rng.shuffle(Ul)
-    return _check_to_dag("CPDAG of " + str(edges), nodes, [list(e) for e in Dl], [list(e) for e in Ul], "to_dag:cpdag")
+    return _check_to_dag("CPDAG of " + str(edges), nodes, [list(e) for e in Dl], [list(e) for e in Ul],
+                         "to_dag:cpdag" + (":mixed-triangle" if mixed_triangle(Dl, Ul) else ""))
 
 
 def check_to_dag_pdag(case):
